@@ -38,6 +38,11 @@ R5.8 medium aliases: the module-level construction of SAME_MEDIA /
      every listed spelling and its lower-case form resolves to the medium it
      is listed under, no alias maps elsewhere, KNOWN_MEDIA is the set of
      resolvable names, get_viscosity resolves before dispatching.
+R5.9 every internal call of the viscosity functions (and get_emodulus'
+     call of get_viscosity) passes on all physical parameters (medium,
+     channel width, flow rate, temperature) that caller and callee share,
+     each from the caller's parameter of the same name (keyword dicts are
+     resolved).
 R5.5 interpolation: griddata(method='linear') without fill_value/rescale on
      (column 0, column 1) -> column 2; LUT column and data are normalised by
      the same number, the column maximum taken after scaling; extrapolation
@@ -1762,9 +1767,9 @@ def r55(ctx, repo, m, x4):
         if not (isinstance(pts, ast.Tuple) and isinstance(xi, ast.Tuple)
                 and len(pts.elts) == 2 and len(xi.elts) == 2):
             raise AnalysisError(f"route {which}: griddata arguments")
-        ok = [txt(e) for e in pts.elts] == [f"{m.lut}[:, 0]",
-                                            f"{m.lut}[:, 1]"] \
-            and txt(vals) == f"{m.lut}[:, 2]"
+        ok = [alias_txt(stmts, e) for e in pts.elts] == [
+            f"{m.lut}[:, 0]", f"{m.lut}[:, 1]"] \
+            and alias_txt(stmts, vals) == f"{m.lut}[:, 2]"
         ctx.ob("R5.5", ok, "points are LUT columns (0, 1), values column 2"
                if ok else f"griddata interpolates {txt(vals)} over "
                f"{txt(pts)}", node=g, label=f"[{which}] LUT columns")
@@ -2207,6 +2212,70 @@ def _by_name(stmts, what):
     return out
 
 
+def _medium_table(repo, f, conc, what):
+    """{medium: {field: value node}} when the model takes its per-medium
+    constants from a module-level literal table (tuple / list of tuples,
+    namedtuple or dict rows) that the function consults"""
+    for nm in sorted({n.id for n in walk(f) if isinstance(n, ast.Name)
+                      and isinstance(n.ctx, ast.Load)}):
+        tab = repo.module_assign(VISC, nm, missing_ok=True)
+        rows = None
+        if isinstance(tab, (ast.Tuple, ast.List)):
+            rows = [(None, r) for r in tab.elts]
+        elif isinstance(tab, ast.Dict) and all(
+                const_str(k) in conc for k in tab.keys) and tab.keys:
+            rows = [(const_str(k), v) for k, v in zip(tab.keys, tab.values)]
+        if not rows or len(rows) < 2:
+            continue
+        out = {}
+        for key, r in rows:
+            fields = None
+            if isinstance(r, ast.Call):
+                # namedtuple / class row: positional names from the
+                # namedtuple definition when available
+                pos = None
+                ctor = repo.module_assign(VISC, call_name(r) or "",
+                                          missing_ok=True)
+                if isinstance(ctor, ast.Call) and (call_name(ctor) or ""
+                                                   ).split(".")[-1] == \
+                        "namedtuple" and len(ctor.args) == 2:
+                    fl = ctor.args[1]
+                    if isinstance(fl, (ast.List, ast.Tuple)):
+                        pos = [const_str(x) for x in fl.elts]
+                    elif const_str(fl):
+                        pos = const_str(fl).replace(",", " ").split()
+                fields = {}
+                for i, a in enumerate(r.args):
+                    fields[pos[i] if pos and i < len(pos) else f"#{i}"] = a
+                for kw in r.keywords:
+                    if kw.arg is None:
+                        fields = None
+                        break
+                    fields[kw.arg] = kw.value
+            elif isinstance(r, (ast.Tuple, ast.List)):
+                fields = {f"#{i}": a for i, a in enumerate(r.elts)}
+            elif isinstance(r, ast.Dict) and all(
+                    const_str(k) for k in r.keys):
+                fields = {const_str(k): v for k, v in zip(r.keys, r.values)}
+            if fields is None:
+                out = None
+                break
+            meds = [const_str(v) for v in fields.values()
+                    if const_str(v) in conc]
+            med = key or (meds[0] if len(meds) == 1 else None)
+            if med is None:
+                out = None
+                break
+            nums = {k: v for k, v in fields.items() if _number(v) is not None}
+            if not nums or med in out:
+                out = None
+                break
+            out[med] = nums
+        if out and len(out) >= 2:
+            return out
+    return None
+
+
 def r57(ctx, repo):
     same = repo.module_assign(VISC, "SAME_MEDIA")
     if not isinstance(same, ast.Dict):
@@ -2222,22 +2291,17 @@ def r57(ctx, repo):
     for q, f in repo.all_functions(VISC):
         if "." in q or "medium" not in [a.arg for a in f.args.args]:
             continue
-        if not any(isinstance(c, ast.Compare) and txt(c.left) == "medium"
-                   or (isinstance(c, ast.Compare) and txt(
-                       c.comparators[0]) == "medium")
-                   for s in f.body if isinstance(s, ast.If)
-                   for c in ast.walk(s.test)):
-            continue
         # top-level chain that dispatches on the medium
         chain = [s for s in f.body if isinstance(s, ast.If)
                  and names_in(s.test) == {"medium"}]
-        if not chain:
+        table = _medium_table(repo, f, conc, q) if not chain else None
+        if not chain and table is None:
             continue
         shadow = ast.FunctionDef(name=q, args=f.args, body=chain,
                                  decorator_list=[], lineno=f.lineno)
-        branches, _rest = dispatch_branches(shadow, q)
-        bodies = {}
-        for med in sorted(conc, key=conc.get):
+        branches = dispatch_branches(shadow, q)[0] if chain else []
+        bodies = dict(table) if table else {}
+        for med in (sorted(conc, key=conc.get) if chain else []):
             hit = first_branch(branches, {"medium": med}, q)
             if hit is None or any(isinstance(x, ast.Raise)
                                   for x in hit[1]):
@@ -2250,6 +2314,7 @@ def r57(ctx, repo):
             bodies[med] = _by_name(hit[1], q)
         if len(bodies) < 2:
             continue
+        bodies = {m_: bodies[m_] for m_ in sorted(bodies, key=conc.get)}
         if len({id(b) for b in bodies.values()}) < len(bodies) or len(
                 {id(next(iter(b.values()))) for b in bodies.values()}) < len(
                 bodies):
@@ -2634,6 +2699,67 @@ def r58(ctx, repo):
            label="alias resolved before dispatch")
 
 
+PHYSICAL = ("medium", "channel_width", "flow_rate", "temperature")
+
+
+def r59(ctx, repo):
+    """every internal call of the viscosity functions hands on all physical
+    parameters the caller received and the callee accepts"""
+    funcs = {q: f for q, f in repo.all_functions(VISC) if "." not in q}
+    sites = []
+    for q, f in funcs.items():
+        sites += [(VISC, f, c) for c in walk(f) if isinstance(c, ast.Call)
+                  and call_name(c) in funcs]
+    ge = repo.func(EM, "get_emodulus")
+    sites += [(EM, ge, c) for c in walk(ge) if isinstance(c, ast.Call)
+              and call_name(c) in funcs]
+    if len(sites) < 5:
+        raise AnalysisError(f"only {len(sites)} internal calls of the "
+                            "viscosity functions found")
+    for rel, caller, c in sites:
+        callee = funcs[call_name(c)]
+        cpar = [a.arg for a in callee.args.args]
+        have = {a.arg for a in caller.args.args}
+        given = {}
+        for i, a in enumerate(c.args):
+            if isinstance(a, ast.Starred) or i >= len(cpar):
+                raise AnalysisError(f"{caller.name}: call "
+                                    f"`{short(c, 40)}` not understood")
+            given[cpar[i]] = a
+        for kw in c.keywords:
+            if kw.arg is not None:
+                given[kw.arg] = kw.value
+            elif isinstance(kw.value, ast.Name):
+                d = dict_literal(caller, kw.value.id)
+                if not d:
+                    raise AnalysisError(f"{caller.name}: `**"
+                                        f"{kw.value.id}` is not a dict "
+                                        "literal")
+                given.update(d)
+            else:
+                raise AnalysisError(f"{caller.name}: call "
+                                    f"`{short(c, 40)}` not understood")
+        miss, wrong = [], []
+        for p_ in PHYSICAL:
+            if p_ in cpar and p_ in have:
+                if p_ not in given:
+                    miss.append(p_)
+                elif p_ not in names_in(given[p_]):
+                    wrong.append((p_, txt(given[p_])))
+        ok = not miss and not wrong
+        ctx.ob("R5.9", ok,
+               f"{caller.name} hands {', '.join(p_ for p_ in PHYSICAL if p_ in cpar and p_ in have) or 'no physical parameter'} on to "
+               f"{callee.name}" if ok else
+               (f"{caller.name} calls {callee.name} without `{miss[0]}`: "
+                f"the callee falls back to its default "
+                f"({miss[0]}={txt(dict(zip(reversed(cpar), reversed(callee.args.defaults))).get(miss[0]))}) "
+                "whatever the caller was given" if miss else
+                f"{caller.name} passes {wrong[0][1]} as `{wrong[0][0]}` to "
+                f"{callee.name}"), node=c,
+               key=f"{rel}::{caller.name}::call {callee.name} "
+               f"[{short(c, 30)}] complete")
+
+
 def run(ctx):
     repo = ctx.repo
     ctx.rule("R5.1", "every in-place operation of get_emodulus acts on a "
@@ -2664,12 +2790,17 @@ def run(ctx):
              "interpretation): every spelling resolves to the medium it is "
              "listed under, KNOWN_MEDIA = resolvable names, resolved before "
              "the dispatch", minimum=7)
+    ctx.rule("R5.9", "every internal call of the viscosity functions "
+             "passes on all physical parameters (medium, channel width, "
+             "flow rate, temperature) that caller and callee share",
+             minimum=8)
     m = Model(repo)
     r51(ctx, repo, m)
     r56(ctx, repo)
     r56_builtin(ctx, repo)
     r57(ctx, repo)
     r58(ctx, repo)
+    r59(ctx, repo)
     r52(ctx, repo)
     x4 = r53(ctx, repo, m)
     r54(ctx, repo, m)
@@ -2777,6 +2908,21 @@ MUTANTS = [
        ".format(identifier)\n"
        "                         + \"in use by an internal LUT!\")\n", "")],
      "R5.6"),
+    ("fallback model delegates without the flow rate (seeded C05_14)", VISC,
+     ("            model = \"herold-2017\"\n",
+      "            return get_viscosity(medium=medium,\n"
+      "                                 channel_width=channel_width,\n"
+      "                                 temperature=temperature,\n"
+      "                                 model=\"herold-2017\")\n"), "R5.9"),
+    ("flow rate missing from the forwarded keyword dict", VISC,
+     ("                  \"flow_rate\": flow_rate,\n", ""), "R5.9"),
+    ("shear rate called with swapped arguments", VISC,
+     ("shear_rate_square_channel(flow_rate, channel_width, n)",
+      "shear_rate_square_channel(channel_width, flow_rate, n)"), "R5.9"),
+    ("get_emodulus does not forward the temperature", EM,
+     ("                              flow_rate=flow_rate, "
+      "temperature=temperature,\n",
+      "                              flow_rate=flow_rate,\n"), "R5.9"),
     ("scale functions invert the inplace flag", SCALE,
      ("    copy = not inplace\n    if issubclass(area_um.dtype.type",
       "    copy = inplace\n    if issubclass(area_um.dtype.type"), "R5.1"),
@@ -3400,4 +3546,108 @@ TWINS = [
        '    return _scale_by_length_ratio(volume, channel_width_in,\n'
        '                                  channel_width_out, exponent=3,\n'
        '                                  inplace=inplace)\n')]),
+    ('refactoring 5: LUT columns bound to local view aliases', EM,
+     [('        featx_norm = lut[:, 0].max()\n'
+       '        normalize(lut[:, 0], featx_norm)\n'
+       '        normalize(datax_4lut, featx_norm)\n'
+       '\n'
+       '        defo_norm = lut[:, 1].max()\n'
+       '        normalize(lut[:, 1], defo_norm)\n'
+       '        normalize(deform_4lut, defo_norm)\n'
+       '\n'
+       '        # Perform interpolation\n'
+       '        emod = spint.griddata((lut[:, 0], lut[:, 1]), lut[:, 2],\n',
+       '        # (`lut_x` and `lut_defo` are views; normalization modifies '
+       '`lut`)\n'
+       '        lut_x = lut[:, 0]\n'
+       '        featx_norm = lut_x.max()\n'
+       '        normalize(lut_x, featx_norm)\n'
+       '        normalize(datax_4lut, featx_norm)\n'
+       '\n'
+       '        lut_defo = lut[:, 1]\n'
+       '        defo_norm = lut_defo.max()\n'
+       '        normalize(lut_defo, defo_norm)\n'
+       '        normalize(deform_4lut, defo_norm)\n'
+       '\n'
+       '        # Perform interpolation\n'
+       '        emod = spint.griddata((lut_x, lut_defo), lut[:, 2],\n'),
+      ('        scale_feature(feat=featx, data=lut[:, 0], **scale_kw)\n'
+       '        scale_emodulus(lut[:, 2], **scale_kw)\n'
+       '\n'
+       '        # Normalize interpolation data such that the spacing for\n'
+       '        # area and deformation is about the same during '
+       'interpolation.\n'
+       '        featx_norm = lut[:, 0].max()\n'
+       '        normalize(lut[:, 0], featx_norm)\n'
+       '        normalize(datax, featx_norm)\n'
+       '\n'
+       '        defo_norm = lut[:, 1].max()\n'
+       '        normalize(lut[:, 1], defo_norm)\n'
+       '        normalize(deform, defo_norm)\n'
+       '\n'
+       '        # Perform interpolation\n'
+       '        emod = spint.griddata((lut[:, 0], lut[:, 1]), lut[:, 2],\n',
+       '        # (`lut_x`, `lut_emod`, and `lut_defo` are views; scaling '
+       'and\n'
+       '        # normalization modify `lut`)\n'
+       '        lut_x = lut[:, 0]\n'
+       '        scale_feature(feat=featx, data=lut_x, **scale_kw)\n'
+       '        lut_emod = lut[:, 2]\n'
+       '        scale_emodulus(lut_emod, **scale_kw)\n'
+       '\n'
+       '        # Normalize interpolation data such that the spacing for\n'
+       '        # area and deformation is about the same during '
+       'interpolation.\n'
+       '        featx_norm = lut_x.max()\n'
+       '        normalize(lut_x, featx_norm)\n'
+       '        normalize(datax, featx_norm)\n'
+       '\n'
+       '        lut_defo = lut[:, 1]\n'
+       '        defo_norm = lut_defo.max()\n'
+       '        normalize(lut_defo, defo_norm)\n'
+       '        normalize(deform, defo_norm)\n'
+       '\n'
+       '        # Perform interpolation\n'
+       '        emod = spint.griddata((lut_x, lut_defo), lut_emod,\n')]),
+    ('refactoring 5: per-medium constants in a table of namedtuples', VISC,
+     [('from typing import Literal\n',
+       'from collections import namedtuple\nfrom typing import Literal\n'),
+      ('class TemperatureOutOfRangeWarning(PipelineWarning):\n',
+       "#: Medium-specific material constants of the 'buyukurganci-2022' "
+       'model\n'
+       '_BuyukurganciParams = namedtuple("_BuyukurganciParams",\n'
+       '                                 ["medium", "a", "beta"])\n'
+       '_BUYUKURGANCI_PARAMS = (\n'
+       '    # `a` was previously 2.23e-6, changed in Reichel2023 rev 2\n'
+       '    _BuyukurganciParams("0.49% MC-PBS", a=2.30e-6, beta=-0.0056),\n'
+       '    _BuyukurganciParams("0.59% MC-PBS", a=5.70e-6, beta=-0.0744),\n'
+       '    _BuyukurganciParams("0.83% MC-PBS", a=16.52e-6, beta=-0.1455),\n'
+       ')\n'
+       '\n'
+       '\n'
+       'class TemperatureOutOfRangeWarning(PipelineWarning):\n'),
+      ('    if medium == "0.49% MC-PBS":\n'
+       '        a = 2.30e-6  # previously 2.23e-6, changed in Reichel2023 rev '
+       '2\n'
+       '        beta = -0.0056\n'
+       '    elif medium == "0.59% MC-PBS":\n'
+       '        a = 5.70e-6\n'
+       '        beta = -0.0744\n'
+       '    elif medium == "0.83% MC-PBS":\n'
+       '        a = 16.52e-6\n'
+       '        beta = -0.1455\n'
+       '    else:\n'
+       '        raise NotImplementedError(\n'
+       '            f"Medium {medium} not supported for model '
+       '`buyukurganci-2022`!")\n',
+       '    # first table entry for this medium (same order as the former '
+       'if-chain)\n'
+       '    params = next(\n'
+       '        (pp for pp in _BUYUKURGANCI_PARAMS if medium == pp.medium), '
+       'None)\n'
+       '    if params is None:\n'
+       '        raise NotImplementedError(\n'
+       '            f"Medium {medium} not supported for model '
+       '`buyukurganci-2022`!")\n'
+       '    _, a, beta = params\n')]),
 ]
